@@ -126,7 +126,8 @@ func c18MacroProgram(r *fw.RNG) []*sx.N {
 	fail := fw.Pick(r, []*sx.N{sx.Call("car", sx.I(5)), sx.Call("error", sx.QY("boom"), sx.I(1)), sx.Y("no-such-symbol"), sx.Call("cons", sx.I(1))})
 	var forms []*sx.N
 	forms = append(forms, sx.Call("defun", sx.Y("wrap"), sx.L(sx.Y("x")), sx.Call("list", sx.Y("x"))))
-	switch r.Intn(4) {
+	shape := r.Intn(6)
+	switch shape {
 	case 0: // written in the template
 		forms = append(forms, sx.Call("defmacro", sx.Y("tm"), sx.L(sx.Y("a")), sx.Call("quasiquote", sx.Call("list", sx.Call("unquote", sx.Y("a")), fail))))
 	case 1: // argument form spliced in: keeps the position it has at the call site
@@ -136,6 +137,32 @@ func c18MacroProgram(r *fw.RNG) []*sx.N {
 	case 2: // built by the macro without position: (list 'car 5) has no source, it takes the call site
 		// (cons (car '(lisp:car)) (list 5)) builds the list (lisp:car 5) at expansion time
 		forms = append(forms, sx.Call("defmacro", sx.Y("tm"), sx.L(sx.Y("a")), sx.Call("cons", sx.Call("car", sx.Q(sx.L(sx.Y(fw.Pick(r, []string{"lisp:car", "lisp:length", "lisp:cons"}))))), sx.Call("list", sx.I(5)))))
+	case 4, 5: // the failing template form directly contains a splice of the macro's arguments
+		type sp struct {
+			head string
+			pre  []*sx.N
+			args []*sx.N
+		}
+		c := fw.Pick(r, []sp{
+			{"car", nil, []*sx.N{sx.I(5)}},
+			{"cons", nil, []*sx.N{sx.I(1)}},
+			{"+", []*sx.N{sx.I(1)}, []*sx.N{sx.I(2), sx.S("two")}},
+			{"error", []*sx.N{sx.QY("boom")}, []*sx.N{sx.I(1), sx.I(2)}},
+			{"length", nil, []*sx.N{sx.I(1), sx.I(2)}},
+			{"nth", []*sx.N{sx.Q(sx.L(sx.I(1)))}, []*sx.N{sx.S("x")}},
+		})
+		tmpl := sx.Call(c.head, append(append([]*sx.N{}, c.pre...), sx.Call("unquote-splicing", sx.Y("xs")))...)
+		if shape == 5 {
+			tmpl = sx.Call("wrap", tmpl)
+		}
+		forms = append(forms, sx.Call("defmacro", sx.Y("tm"), sx.L(sx.Y("&rest"), sx.Y("xs")), sx.Call("quasiquote", tmpl)))
+		depth := r.Range(0, 3)
+		call := sx.Call("tm", c.args...)
+		for i := 0; i < depth; i++ {
+			call = sx.Call("wrap", call)
+		}
+		forms = append(forms, sx.Call("verif:probe", sx.QY("pre"), sx.I(1)))
+		return append(forms, sx.Call("let", sx.L(sx.L(sx.Y("k"), sx.I(1))), call))
 	default: // nested macros: template of an inner macro
 		forms = append(forms, sx.Call("defmacro", sx.Y("inner"), sx.L(sx.Y("a")), sx.Call("quasiquote", sx.Call("wrap", fail))))
 		forms = append(forms, sx.Call("defmacro", sx.Y("tm"), sx.L(sx.Y("a")), sx.Call("quasiquote", sx.Call("inner", sx.Call("unquote", sx.Y("a"))))))
